@@ -737,7 +737,7 @@ parse_allele_list(PyObject *allele_tuple)
     const char **ret = NULL;
     const char **alleles = NULL;
     PyObject *str;
-    Py_ssize_t j, num_alleles;
+    Py_ssize_t j, num_alleles, length;
 
     if (!PyTuple_Check(allele_tuple)) {
         PyErr_SetString(PyExc_TypeError, "Fixed allele list must be a tuple");
@@ -770,8 +770,14 @@ parse_allele_list(PyObject *allele_tuple)
          * returned string, we can be sure it's safe. These strings are immediately
          * copied during tsk_vargen_init, so the operation is safe.
          */
-        alleles[j] = PyUnicode_AsUTF8AndSize(str, NULL);
+        alleles[j] = PyUnicode_AsUTF8AndSize(str, &length);
         if (alleles[j] == NULL) {
+            goto out;
+        }
+        /* The library reads the alleles as C strings */
+        if (strlen(alleles[j]) != (size_t) length) {
+            PyErr_SetString(
+                PyExc_ValueError, "alleles must not contain null characters");
             goto out;
         }
     }
